@@ -8,3 +8,12 @@ package smobserver
 //@   ensures len(ret0) <= len(events) && (forall i :: 0 <= i && i < len(ret0) ==> (ret0[i] != nil && payload(ret0[i]) != 0))
 //@   invariant len(res) <= rangeindex + 1
 //@   invariant forall i :: 0 <= i && i < len(res) ==> (res[i] != nil && payload(res[i]) != 0)
+//@
+//@ // C20, producer side: a key generation that is recorded as successful has queued its eon key for publication
+//@ // (one row in outgoing_eon_keys) in the same call
+//@ func (*ShuttermintState).finalizeDKG
+//@   requires st != nil && st.dkg != nil && queries != nil && dkg != nil && dkg.pure != nil
+//@   ensures ret0 == nil ==> evcount("insDKGResult") == old(evcount("insDKGResult")) + 1
+//@   ensures ret0 == nil && evarg("insDKGResult", 1, old(evcount("insDKGResult"))) ==> evcount("insEonKey") == old(evcount("insEonKey")) + 1
+//@   ensures ret0 == nil ==> evarg("insDKGResult", 0, old(evcount("insDKGResult"))) == int64(eon)
+//@   opt frame = off
